@@ -220,7 +220,7 @@ theorem silence_after_close_cb_statement_false : ¬ silence_after_close_cb_state
   let sc : Script := fun _ _ _ => []
   let orc : List PollRes := [{ clock := 0 }, { clock := 0, done := 3, batch := [(Owner.async, 1)] }]
   let s1 : State := runMain sc 5 (initLoop 0 false orc) [.op (.init .idle), .op (.close 2), .run .nowait]
-  let prog2 : List MainOp := [.op .work, .op .work, .op .work, .run .nowait]
+  let prog2 : List MainOp := [.op (.work .queueWork), .op (.work .queueWork), .op (.work .queueWork), .run .nowait]
   have hs : SInv s1 := runMain_inv _ _ _ _ (sInv_initLoop _ _ _)
   have h2 := h sc 5 s1 prog2 2 hs (by decide) (by decide)
   have hall : (((runMain sc 5 s1 prog2).trace.take ((runMain sc 5 s1 prog2).trace.length - s1.trace.length)).all
@@ -272,7 +272,7 @@ example :
     let sc : Script := fun _ _ _ => []
     let orc : List PollRes := [{ clock := 0 }, { clock := 0, done := 3, batch := [(Owner.async, 1)] }]
     let s1 : State := runMain sc 5 (initLoop 0 false orc) [.op (.init .idle), .op (.close 2), .run .nowait]
-    let s2 := runMain sc 5 s1 [.op .work, .op .work, .op .work, .run .nowait]
+    let s2 := runMain sc 5 s1 [.op (.work .queueWork), .op (.work .queueWork), .op (.work .queueWork), .run .nowait]
     getH s1 2 = none ∧ 2 < s1.nextId ∧
     (s2.trace.reverse.filterMap (fun e => match e with | .cb _ k i _ _ => some (k, i) | _ => none)) =
       [(CbKind.close, 2), (CbKind.work, 0), (CbKind.work, 1), (CbKind.work, 2)] := by decide
@@ -344,13 +344,13 @@ theorem req_cb_in_callbacks (s : State) (hj : Reqs.J none s) :
     the pool thread) each request has had exactly one callback, none is owed, and the next id has had none -/
 example :
     let s := runMain (fun _ _ _ => []) 5 (initLoop 1000 false [{ clock := 1000, done := 2, batch := [(.async, 1)] }])
-      [MainOp.op (.init .udp), MainOp.op .work, MainOp.op .work, MainOp.op (.udpSend 2), MainOp.run .nowait]
+      [MainOp.op (.init .udp), MainOp.op (.work .queueWork), MainOp.op (.work .queueWork), MainOp.op (.udpSend 2), MainOp.run .nowait]
     (s.reqs, s.nextReq, Reqs.reqCbs 0 s.trace, Reqs.reqCbs 1 s.trace, Reqs.reqCbs 2 s.trace, Reqs.reqCbs 3 s.trace,
       s.ncbTotal) = ([], 3, 1, 1, 1, 0, 3) := by decide
 /-- … and before the run all three are owed and none has had its callback -/
 example :
     let s := runMain (fun _ _ _ => []) 5 (initLoop 1000 false [])
-      [MainOp.op (.init .udp), MainOp.op .work, MainOp.op .work, MainOp.op (.udpSend 2)]
+      [MainOp.op (.init .udp), MainOp.op (.work .queueWork), MainOp.op (.work .queueWork), MainOp.op (.udpSend 2)]
     (s.reqs.map (·.id), Reqs.reqCbs 0 s.trace, Reqs.reqCbs 1 s.trace, Reqs.reqCbs 2 s.trace) = ([0, 1, 2], 0, 0, 0) := by decide
 
 end UvModel.Props.C02
